@@ -15,6 +15,7 @@ import os
 import numpy as np
 
 from vf import core
+from vf import callforms
 from vf import solverlib as sl
 
 PROPERTY = "C07"
@@ -221,6 +222,63 @@ def case_interface_similarity(case):
     return {"v": v, "nt": True, "n": 2}
 
 
+def case_cached_mirror(case):
+    """mirror symmetry of footprints served through ONE attached result cache, in sessions in which the stored entry of one
+    of the two mirror-image problems was damaged on disk (interrupted run) before the session: problems P and its x- (or y-)
+    mirror image P' are requested in every order of a short session; each answer must be the mirror image of the other
+    problem's uncached answer"""
+    import shutil
+
+    from bldfm.cache import GreensFunctionCache
+
+    S0 = sl.solver()
+    nx, ny, dom = 8, 6, (80.0, 90.0)
+    dx, dy = dom[0] / nx, dom[1] / ny
+    z, prof = sl.build_profiles("most_aniso", 4)
+    u, vv, Kx, Ky, Kz = prof
+    q = np.zeros((ny, nx))
+    ti, tj = 2, 1
+    if case["axis"] == "x":
+        profm, mpm, flip = (-u, vv, Kx, Ky, Kz), (((-ti) % nx) * dx, tj * dy), (lambda a: a[..., (-np.arange(nx)) % nx])
+    else:
+        profm, mpm, flip = (u, -vv, Kx, Ky, Kz), (ti * dx, ((-tj) % ny) * dy), (lambda a: a[..., (-np.arange(ny)) % ny, :])
+    kw = dict(modes=(8, 6), halo=0.0, precision="double", footprint=True)
+    req = {"P": dict(kw, profiles=prof, meas_pt=(ti * dx, tj * dy)), "M": dict(kw, profiles=profm, meas_pt=mpm)}
+    ref = {}
+    for k, r in req.items():
+        _, c, f = S0(q, z, r["profiles"], dom, [2, 4], **{kk: vv_ for kk, vv_ in r.items() if kk != "profiles"})
+        ref[k] = np.stack([np.asarray(c, dtype=float), np.asarray(f, dtype=float)])
+    cdir = os.path.join(os.getcwd(), "cm_%s" % core.case_hash(case))
+    shutil.rmtree(cdir, ignore_errors=True)
+    v = []
+    n = 2
+    try:
+        # an earlier session stored the entry named in case["damaged"]; it was then cut short on disk
+        r = req[case["damaged"]]
+        S0(q, z, r["profiles"], dom, [2, 4], cache=GreensFunctionCache(cdir), **{kk: vv_ for kk, vv_ in r.items() if kk != "profiles"})
+        for fn_ in os.listdir(cdir):
+            pth = os.path.join(cdir, fn_)
+            data = open(pth, "rb").read()
+            with open(pth, "wb") as fh:
+                fh.write(data[: (0 if case["how"] == "zero" else len(data) // 2)])
+        cache = GreensFunctionCache(cdir)
+        for pos, k in enumerate(case["session"]):
+            r = req[k]
+            n += 1
+            _, c, f = S0(q, z, r["profiles"], dom, [2, 4], cache=cache, **{kk: vv_ for kk, vv_ in r.items() if kk != "profiles"})
+            got = np.stack([np.asarray(c, dtype=float), np.asarray(f, dtype=float)])
+            other = "M" if k == "P" else "P"
+            want = flip(ref[other])
+            e = sl.relerr(sl.drop_cutoff(got, 8, 6), sl.drop_cutoff(want, 8, 6), max(np.abs(want).max(), 1e-300))
+            if not e <= 1e-9:
+                v.append({"sub": "cached-mirror", "sig": "cached-mirror/%s" % case["axis"], "msg": "session %s through one cache (entry of %s damaged beforehand: %s): answer %d (problem %s) is not the %s-mirror image of the other problem's footprint (deviation %.2e of the maximum)"
+                          % ("".join(case["session"]), case["damaged"], case["how"], pos, k, case["axis"], e)})
+                break
+    finally:
+        shutil.rmtree(cdir, ignore_errors=True)
+    return {"v": v, "nt": True, "n": n}
+
+
 def run(ctx):
     os.environ["VERIF_SEED"] = str(ctx.seed)
     core.warm_numba()
@@ -228,6 +286,9 @@ def run(ctx):
         "complete product: profile sets x grids x mode counts x {dispersion, footprint}; per configuration 2-3 tower cells x "
         "{mirror-x, mirror-y, mirror-xy, transpose, 4 length scales, 4 velocity scales}; configurations are distinct lattice points; evaluations counts solver executions"
     )
+    callforms.run_solver_forms(ctx)
     ctx.run_cases(case_symmetry, configs(ctx.tier), sub="symmetry", chunksize=1)
     ctx.run_cases(case_halo_symmetry, halo_configs(ctx.tier), sub="symmetry-with-halo", chunksize=1)
+    ctx.run_cases(case_cached_mirror, [{"axis": ax, "damaged": d_, "how": h_, "session": list(ss)} for ax in ("x", "y") for d_ in ("P", "M") for h_ in ("zero", "half") for ss in itertools.product("PM", repeat=4) if len(set(ss)) == 2],
+                  sub="mirror symmetry through a cache with a damaged entry")
     ctx.run_cases(case_interface_similarity, [{"scale": s, "halo": h, "footprint": fp} for s, h, fp in itertools.product((0.5, 8.0), (None, 20.0, 0.0), (True, False))], sub="interface-similarity")
